@@ -197,6 +197,20 @@ func eachCase(c *fw.Ctx, which map[string]bool, f func(sc streamCase)) {
 	if on("pool") {
 		docSets(!c.Quick(), func(name string, blocks []doc.Block) {
 			single("pool", name, doc.Text(doc.Assemble(blocks)))
+			// the same declarations in other orders (use before declaration): reversed, and every rotation
+			n := len(blocks)
+			if n < 2 {
+				return
+			}
+			rev := make([]doc.Block, n)
+			for i, b := range blocks {
+				rev[n-1-i] = b
+			}
+			single("pool", name+" reversed", doc.Text(doc.Assemble(rev)))
+			for r := 1; r < n && n > 2; r++ {
+				rot := append(append([]doc.Block{}, blocks[r:]...), blocks[:r]...)
+				single("pool", fmt.Sprintf("%s rotated %d", name, r), doc.Text(doc.Assemble(rot)))
+			}
 		})
 	}
 	// the corpus and its complete one-line-edit neighbourhood
